@@ -145,23 +145,23 @@ def combinators():
     return _combinators
 
 
-def run_limit(N, items, endless, route, how="copy"):
-    src = Src(items, endless, cap=CAP)
+def run_limit(N, items, endless, route, how="copy", srckind="iterator"):
+    obj, src = c08_worker.make_source(srckind, items, endless, CAP)
     eng = engine_of(how, limitIterators=N)
     ctx = fresh_ctx()
     out, got = "Ok", []
     try:
         if route.startswith("combinator:"):
             vt = dict(combinators())[route[len("combinator:"):]]
-            w = vt.convert(src, utils.NO_VALUE, ctx, None, eng)
+            w = vt.convert(obj, utils.NO_VALUE, ctx, None, eng)
         elif route == "int":
-            w = utils.limit_iterable(src, N)
+            w = utils.limit_iterable(obj, N)
         elif route == "engine":
-            w = utils.limit_iterable(src, eng)
+            w = utils.limit_iterable(obj, eng)
         elif route == "convert":
-            w = yaqltypes.Iterable().convert(src, utils.NO_VALUE, ctx, None, eng)
+            w = yaqltypes.Iterable().convert(obj, utils.NO_VALUE, ctx, None, eng)
         else:
-            w = ctx("#iter", eng)(src)
+            w = ctx("#iter", eng)(obj)
         for x in w:
             got.append(x)
     except exceptions.CollectionTooLargeException:
@@ -210,8 +210,13 @@ def c_limit(run, n, terms, meta):
             combs = combinators()
             route = "combinator:" + combs[(i // 8) % len(combs)][0]
         how = how_of(i, 4)
-        out, got, pulls = run_limit(N, items, endless, route, how)
-        run.case(("limit", N, tuple(items), endless, route, how), nontrivial=endless or len(items) >= N)
+        srckind = c08_worker.SOURCE_KINDS[(i // 2) % 3]      # every lazy shape a host can supply
+        if route.startswith("combinator:") and srckind == "reiterable" and \
+                not dict(combinators())[route[len("combinator:"):]].check(c08_worker.ReIter(), fresh_ctx(), engine()):
+            srckind = "iterator"                             # e.g. Chain(Iterable(), Iterator()) takes iterators only
+        out, got, pulls = run_limit(N, items, endless, route, how, srckind)
+        run.count("limit-source:%s" % srckind)
+        run.case(("limit", N, tuple(items), endless, route, how, srckind), nontrivial=endless or len(items) >= N)
         run.count("limit:%s" % out)
         run.count("limit-route:%s" % route.split(":")[0])
         run.count("options-route:%s" % how)
@@ -220,7 +225,8 @@ def c_limit(run, n, terms, meta):
                         "outcome": out, "yielded": got, "pulls": pulls})
         terms.append("CLimit %s %s %s %s %s" % (gal.z(N), gal.zlist(items), gal.boolean(endless),
                                                res_term(out, gal.zlist(got)), gal.nat(min(pulls, 4000))))
-        meta.append(("limit", {"N": N, "items": items, "endless": endless, "route": route, "options_route": how},
+        meta.append(("limit", {"N": N, "items": items, "endless": endless, "route": route, "options_route": how,
+                               "source": srckind},
                      {"outcome": out, "yielded": got, "pulls": pulls},
                      limit_predicate(N, items, endless, out, got, pulls)))
 
@@ -287,7 +293,8 @@ def c_prefix(run, n, terms, meta):
 
 SIZED_MAKERS = [("tuple", tuple), ("list", list), ("set", set), ("frozenset", frozenset),
                 ("dict", lambda l: {x: x for x in l}), ("FrozenDict", lambda l: utils.FrozenDict((x, x) for x in l)),
-                ("items-view", lambda l: {x: x for x in l}.items()), ("range", lambda l: range(len(l)))]
+                ("items-view", lambda l: {x: x for x in l}.items()), ("range", lambda l: range(len(l))),
+                ("deque", lambda l: __import__("collections").deque(l)), ("keys-view", lambda l: {x: x for x in l}.keys())]
 
 
 def c_sized(run, n, terms, meta):
@@ -1176,6 +1183,7 @@ def sweep_tasks(rows, Ns, max_variants):
             tasks.append({"kind": "sweep", "id": "%s|%s|%s|%d" % (r["fn"], r["payload"], r["key"], N), "fd": r["idx"],
                           "key": r["key"], "N": N, "mode": mode, "max_variants": max_variants,
                           "optroute": WORKER_OPT_ROUTES[len(tasks) % 3],
+                          "srckind": c08_worker.SOURCE_KINDS[(len(tasks) // 3) % 3],
                           "_row": {"fn": r["fn"], "payload": r["payload"], "key": r["key"], "mode": mode,
                                    "typed": not r["acc_int"]}})
     return tasks
@@ -1192,8 +1200,9 @@ def o_sweep(run, deep):
         if r["kind"] == "PEager" and r["acc_iter"] and not r["acc_int"] and not r["limiting"]:
             run.fail("violation", "parameter declared with a collection type does not limit what it is given: %s(%s)" % (r["payload"], r["key"]),
                      {"kind": "typed-param", "function": r["fn"], "payload": r["payload"], "parameter": r["key"],
-                      "observed": "value_type.convert(endless iterator) under yaql.limitIterators=%d delivered %s items without CollectionTooLargeException"
-                                  % (gen_limitfacts.PROBE_LIMIT, r["pulls"]),
+                      "observed": "value_type.convert under yaql.limitIterators=%d handed over %d or more items without "
+                                  "CollectionTooLargeException for: %s"
+                                  % (gen_limitfacts.PROBE_LIMIT, gen_limitfacts.PROBE_LIMIT + 1, ", ".join(r["unlimited_shapes"])),
                       "required": "CollectionTooLargeException after at most %d pulls" % (gen_limitfacts.PROBE_LIMIT + 1),
                       "theorem": "C08_typed_params_limited"})
     Ns = [0, 2] if run.quick and not deep else [0, 1, 2, 3, 5]
@@ -1240,7 +1249,8 @@ def o_sweep(run, deep):
                                   "fed by a lambda that returns an endless iterator" if row["mode"] == "lambda" else "fed by an endless iterator")
             run.fail("violation", "%s escapes yaql.limitIterators" % what,
                      {"kind": "sweep", "function": row["fn"], "payload": row["payload"], "parameter": row["key"],
-                      "mode": row["mode"], "N": N, "options_route": t.get("optroute"), "other_arguments": bad["variant"],
+                      "mode": row["mode"], "N": N, "options_route": t.get("optroute"), "source": t.get("srckind"),
+                      "other_arguments": bad["variant"],
                       "observed": {"outcome": bad["outcome"], "pulls_from_one_source": bad["pulls"]},
                       "required": "at most %d pulls and termination" % (N + 1),
                       "replay_task": {k: v for k, v in t.items() if k != "_row"}})
@@ -1478,6 +1488,122 @@ def o_direct(run, deep):
                      {"kind": kind, "input": inp, "observed": {"outcome": out, "pulls": pulls}, "required": pred})
 
 
+# ---- every iterable shape a host can supply x every way of delivering it ----
+SHAPES = ["iterator", "generator", "reiterable", "sized-iterable", "deque", "range", "dict-values", "dict-keys", "dict-items",
+          "mapping-values"]
+DELIVERIES = ["context variable", "data, convertInputData=false", "data, converted"]
+SHAPE_EXPRS = ["%s.count()", "%s", "[[%s]]", "dict(a => %s)", "%s.select($).toList()", "%s.toList().len()"]
+
+
+class InstrMapping(__import__("collections").abc.Mapping):
+    """A host mapping whose iteration is instrumented (its .values() view is lazy and not sized as a Set)."""
+
+    def __init__(self, n):
+        self.n, self.inner = n, c08_worker.ReIter(list(range(n)), False, CAP)
+
+    def __iter__(self):
+        return iter(self.inner)
+
+    def __len__(self):
+        return self.n
+
+    def __getitem__(self, k):
+        return k
+
+
+def make_shape(shape, L, endless):
+    """-> (object, pulls counter or None, number of items or None when endless)"""
+    import collections
+    items = list(range(L))
+    if shape in ("iterator", "generator", "reiterable"):
+        obj, cnt = c08_worker.make_source(shape, items, endless, CAP)
+        return obj, cnt, (None if endless else L)
+    if shape == "sized-iterable":
+        obj, cnt = c08_worker.make_source(shape, items, False, CAP)
+        return obj, cnt, L
+    if shape == "mapping-values":
+        m = InstrMapping(L)
+        return m.values(), m.inner, L
+    obj = {"deque": lambda: collections.deque(items), "range": lambda: range(L),
+           "dict-values": lambda: {i: i for i in items}.values(), "dict-keys": lambda: {i: i for i in items}.keys(),
+           "dict-items": lambda: {i: i for i in items}.items()}[shape]()
+    return obj, None, L
+
+
+def run_shape(shape, L, endless, delivery, template, N, how):
+    obj, cnt, size = make_shape(shape, L, endless)
+    ctx = fresh_ctx()
+    opts = dict(limitIterators=N)
+    if delivery == "context variable":
+        ctx["v"] = obj
+        text, kw = template % "$v", {}
+    else:
+        text, kw = template % "$", {"data": obj}
+        if delivery == "data, convertInputData=false":
+            opts["convertInputData"] = False
+    try:
+        val = statement(text, how, **opts).evaluate(context=ctx, **kw)
+        out = "Ok"
+    except exceptions.CollectionTooLargeException:
+        out, val = "TooLarge", None
+    except PullCap:
+        out, val = "Diverges", None
+    except Exception as e:
+        out, val = "Other:" + type(e).__name__, None
+    return out, val, (cnt.pulls if cnt is not None else None), size, text
+
+
+def width_of(v):
+    if isinstance(v, dict):
+        return max([len(v)] + [max(width_of(k), width_of(x)) for k, x in v.items()])
+    if isinstance(v, (list, tuple, set, frozenset)):
+        return max([len(v)] + [width_of(x) for x in v])
+    if v is None or isinstance(v, (str, int, float)):
+        return 0
+    return 10 ** 9            # anything lazy or foreign left in a result
+
+
+def shape_predicate(N, out, val, pulls, size, delivery):
+    more = size is None or size > N
+    if pulls is not None and delivery != "data, converted" and pulls > N + 1:
+        return "%d items were pulled from one walk of the source, allowed %d" % (pulls, N + 1)
+    if out == "Diverges":
+        return "the evaluation ran away over the source (stopped by the harness' cap)"
+    if out == "Ok" and width_of(val) > N:
+        return "the result holds a collection of more than %d elements (or something lazy)" % N
+    if more and out == "Ok":
+        return "a source of more than %d items was consumed without CollectionTooLargeException" % N
+    if not more and out == "TooLarge":
+        return "a source of %d items was refused under limit %d" % (size, N)
+    return None
+
+
+def o_shapes(run, deep):
+    k = 0
+    Ns = [1, 3] if run.quick and not deep else [0, 1, 3, 6]
+    for shape in SHAPES:
+        for delivery in DELIVERIES:
+            for template in SHAPE_EXPRS:
+                for N in Ns:
+                    for L, endless in [(N, False), (N + 1, False), (12, False)] + ([(0, True)] if shape in ("iterator", "generator", "reiterable") else []):
+                        k += 1
+                        if run.quick and not deep and run.rng.random() < 0.5:
+                            continue
+                        how = how_of(k)
+                        out, val, pulls, size, text = run_shape(shape, L, endless, delivery, template, N, how)
+                        run.cov["evaluations"] += 1
+                        run.count("shape:%s:%s" % (shape, out.split(":")[0]))
+                        if out.startswith("Other:"):
+                            continue                 # the expression does not apply to this shape (e.g. an unhashable dict value)
+                        pred = shape_predicate(N, out, val, pulls, size, delivery)
+                        if pred:
+                            run.fail("violation", "%s handed in as %s: %s" % (shape, delivery, generalise(pred)),
+                                     {"kind": "shape", "shape": shape, "items": L, "endless": endless, "delivery": delivery,
+                                      "template": template, "expression": text, "N": N, "options_route": how,
+                                      "observed": {"outcome": out, "pulls": pulls, "value": repr(val)[:200]}, "required": pred,
+                                      "theorem": "C08_limit_pulls / C08_result_width / C08_typed_params_limited"})
+
+
 # ---- host-registered functions with combinator-declared collection parameters ----
 POSITIONS = ["positional", "keyword", "receiver"]
 
@@ -1591,6 +1717,7 @@ def o_combinators(run, deep):
 def oracle(run, deep):
     corpus = load_corpus()
     o_combinators(run, deep)
+    o_shapes(run, deep)
     o_direct(run, deep)
     o_sweep(run, deep)
     o_expressions(run, deep, corpus)
@@ -1618,7 +1745,7 @@ def replay(run, data):
     if kind == "limit":
         i = d["input"]
         out, got, pulls = run_limit(i["N"], i["items"] if isinstance(i["items"], list) else list(range(i["items"])),
-                                    i["endless"], i["route"], i.get("options_route", "copy"))
+                                    i["endless"], i["route"], i.get("options_route", "copy"), i.get("source", "iterator"))
         return limit_predicate(i["N"], i["items"] if isinstance(i["items"], list) else list(range(i["items"])),
                                i["endless"], out, got, pulls) is None
     if kind == "prefix":
@@ -1686,6 +1813,10 @@ def replay(run, data):
         i = d["input"]
         raised, other = eval_chain(i["expr"], i["vars"], i["Q"], i.get("options_route", "copy"))
         return chain_predicate(i["expr"], i["Q"], i["sizes_inside"], raised, other) is None
+    if kind == "shape":
+        out, val, pulls, size, text = run_shape(d["shape"], d["items"], d["endless"], d["delivery"], d["template"], d["N"],
+                                                d.get("options_route", "copy"))
+        return out.startswith("Other:") or shape_predicate(d["N"], out, val, pulls, size, d["delivery"]) is None
     if kind == "combinator":
         out, pulls = run_host(d["type"], d["position"], d["input"], d["N"], d.get("options_route", "copy"))
         return host_predicate(d["input"], d["N"], out, pulls, d["position"]) is None
